@@ -52,7 +52,7 @@ def report_obs(ctx, obs, analysed, rule="PANIC", only_funcs=None, entry=None):
     return n
 
 
-def check(ctx, entries, reach, rule="PANIC", modular=True, budget=300000):
+def check(ctx, entries, reach, rule="PANIC", modular=True, budget=300000, fold_scope=None):
     """Modular PANIC pass: every handwritten function of `reach` (default: everything reachable from
     `entries`) is analysed stand-alone with unconstrained arguments; calls to other members of the
     set are not inlined (they are analysed on their own), small helpers outside the set are."""
@@ -69,7 +69,7 @@ def check(ctx, entries, reach, rule="PANIC", modular=True, budget=300000):
     small = {p for p in members if F.body(p) is not None and len(F.body(p)["blocks"]) <= 40 and not _cfg.natural_loops(F.body(p)) and F.body(p)["kind"] != "closure"}
     eng.inline_filter = (lambda p: p not in members or p in small) if modular else None
     n = 0
-    folds = fold_closures(F, reach)
+    folds = fold_closures(F, fold_scope or reach)
     for p in reach:
         b = F.body(p)
         if b is None or b["derived"]:
